@@ -56,3 +56,35 @@ def test_c08_short_udp_ip_payload_does_not_raise():
         term.process_incoming_burst(copy.deepcopy(c.PARSED[name]), 1)
     assert [(e[0], e[1]) for e in rec.events] == [("started", "D"), ("ended", "D")]
     assert term.timeslots[1].transmission.type.name == "Idle"
+
+
+def test_c19_byteswap_does_not_touch_argument():
+    from okdmr.dmrlib.utils.bits_bytes import byteswap_bytearray
+
+    buf = bytearray(b"\x01\x02\x03\x04")
+    assert byteswap_bytearray(buf) == b"\x02\x01\x04\x03"
+    assert buf == bytearray(b"\x01\x02\x03\x04")
+
+
+def test_c19_get_token_twice():
+    from okdmr.dmrlib.motorola.lrrp import LRRP
+    from okdmr.dmrlib.motorola.mbxml import MBXMLDocumentIdentifier
+
+    doc = LRRP(document_id=MBXMLDocumentIdentifier.LRRP_ImmediateLocationReport_NCDT)
+    a = doc.get_token(name=0x39, value=b"\x51", attributes={"result-code": 5}, is_request=False)
+    b = doc.get_token(name=0x39, value=b"\x51", attributes={"result-code": 5}, is_request=False)
+    assert a.token_id == b.token_id
+
+
+def test_c19_default_arguments_are_not_shared():
+    from bitarray import bitarray
+    from okdmr.dmrlib.etsi.layer2.burst import Burst
+    from okdmr.dmrlib.hytera.pdu.radio_control_protocol import (
+        RadioControlProtocol, RCPOpcode, StatusChangeNotificationTargets, StatusChangeNotificationSetting)
+
+    b = Burst()
+    b.full_bits[0:8] = bitarray("11111111")
+    assert Burst().full_bits.count() == 0
+    p = RadioControlProtocol(opcode=RCPOpcode.StatusChangeNotificationRequest)
+    p.status_change_settings[StatusChangeNotificationTargets.RSSI] = StatusChangeNotificationSetting.ENABLE_NOTIFY
+    assert RadioControlProtocol(opcode=RCPOpcode.StatusChangeNotificationRequest).status_change_settings == {}
